@@ -224,6 +224,7 @@ keys from the whole table and so alarmed on the clean tree whenever the draw hit
 
 KEY_GRADIENT = 'c06:user-override-of-gradient-key'
 KEY_AFTER_CALL = 'c06:tabstop-directly-after-call'
+KEY_LEADING_DASH = 'c06:leading-dash-of-value-dropped'
 
 
 def listed_class(cfg_json, typed, src=None, tables=()):
@@ -237,6 +238,8 @@ def listed_class(cfg_json, typed, src=None, tables=()):
     src = src if src is not None else sn.get(typed)
     if isinstance(src, str) and re.search(r'\)\$\{', src):
         return KEY_AFTER_CALL
+    if isinstance(src, str) and re.search(r'(?:^[^:]*:|[\s|(,])\s*-(?:[A-Za-z_]|\$\{)', src):
+        return KEY_LEADING_DASH              # a value token written with a leading dash before a letter / tabstop
     return None
 
 
